@@ -1,5 +1,6 @@
 import MesaModel.Proofs.LegacyC08
 import MesaModel.Proofs.LegacyNetState
+import MesaModel.Proofs.LegacyCalls
 
 /-!
 # C08 — legacy grids: pos, cell contents, empties and empty_mask never disagree
@@ -125,6 +126,47 @@ theorem C08_distance_is_torus_metric (g : Grid) (hw : 0 < g.w) (hh : 0 < g.h) (h
     g.distSq (p.1 % g.w, p.2 % g.h) q = g.distSq p q :=
   ⟨distSq_torus_spec g hw hh ht p q, distSq_wrap g hw hh ht p q⟩
 
+/-! ## what each call does to the cell lists (the order inside a MultiGrid cell is observable) -/
+
+/-- **`remove_agent`**: a placed agent leaves its cell's list and gets `pos None`, nothing else changes;
+    **an agent that is not on the grid**: nothing changes — a SingleGrid returns silently, a MultiGrid raises
+    TypeError (`x, y = None`) -/
+theorem C08_remove_takes_out_or_changes_nothing (g : Grid) (hi : Inv g) (a : Aid) :
+    (∀ p, g.pos a = some p → (g.remove a).2 = .ok ∧ (g.remove a).1.pos a = none ∧
+      (g.remove a).1.content p = (g.content p).erase a ∧ (∀ q, q ≠ p → (g.remove a).1.content q = g.content q) ∧
+      ∀ b, b ≠ a → (g.remove a).1.pos b = g.pos b) ∧
+    (g.pos a = none → (g.remove a).1 = g ∧ (g.remove a).2 = if g.multi then .err .type else .ok) :=
+  c08_remove_spec g hi a
+
+/-- **`place_agent`** (within the quantifier: unplaced agent) appends the agent to the cell's list -/
+theorem C08_place_appends (g : Grid) (a : Aid) (p : Coord) (hpos : g.pos a = none) (hok : (g.place a p).2 = .ok) :
+    (g.place a p).1.content p = g.content p ++ [a] ∧ (g.place a p).1.pos a = some p ∧
+    (∀ q, q ≠ p → (g.place a p).1.content q = g.content q) ∧ ∀ b, b ≠ a → (g.place a p).1.pos b = g.pos b :=
+  ⟨place_content_self g a p hpos hok, place_ok_pos g a p hpos hok, fun q hq => place_content_other g a p q hq,
+   fun b hb => place_pos_other g a b p hb⟩
+
+/-- **`move_agent`** of a placed agent, when it succeeds: the agent leaves its cell's list and is appended to
+    the (wrapped) target's — also when both are the same cell: it goes to the end —; no other cell is touched -/
+theorem C08_move_contents (g : Grid) (hw : 0 < g.w) (hh : 0 < g.h) (hi : Inv g) (a : Aid) (p cur : Coord)
+    (hcur : g.pos a = some cur) (hok : (g.move a p).2 = .ok) :
+    ∃ q, g.torusAdj p = .ok q ∧ (g.move a p).1.pos a = some q ∧
+      (g.move a p).1.content q = (g.content q).erase a ++ [a] ∧
+      (cur ≠ q → (g.move a p).1.content cur = (g.content cur).erase a) ∧
+      ∀ x, x ≠ cur → x ≠ q → (g.move a p).1.content x = g.content x :=
+  c08_move_contents g hw hh hi a p cur hcur hok
+
+/-- **`swap_pos`** of two placed agents always succeeds and exchanges them: each is appended to the other's
+    cell list and leaves its own, every other cell and agent is untouched; agents sharing a cell (or one agent
+    swapped with itself): nothing happens -/
+theorem C08_swap_exchanges (g : Grid) (hi : Inv g) (a b : Aid) (pa pb : Coord) (hpa : g.pos a = some pa) (hpb : g.pos b = some pb) :
+    (g.swap a b).2 = .ok ∧ (g.swap a b).1.pos a = some pb ∧ (g.swap a b).1.pos b = some pa ∧
+    (∀ c, c ≠ a → c ≠ b → (g.swap a b).1.pos c = g.pos c) ∧
+    (pa = pb → (g.swap a b).1 = g) ∧
+    (pa ≠ pb → (g.swap a b).1.content pb = (g.content pb).erase b ++ [a] ∧
+               (g.swap a b).1.content pa = (g.content pa).erase a ++ [b]) ∧
+    ∀ x, x ≠ pa → x ≠ pb → (g.swap a b).1.content x = g.content x :=
+  c08_swap_spec g hi a b pa pb hpa hpb
+
 /-! ## NetworkGrid as a space of its own (beyond the four classes the statement names: same agreement, same style)
 
 `Net` (Model/LegacyNbhd.lean) models `NetworkGrid.place_agent / remove_agent / move_agent` (after the NG1 repair)
@@ -197,6 +239,15 @@ theorem C08_network_place_remove (t : Net) (hi : NetInv t) (a : Aid) :
    fun v hv => (net_place_res t a v).2 hv, fun v hp => net_remove_placed t hi a v hp, net_remove_unplaced t a⟩
 
 /-! ## non-vacuity and witnesses -/
+
+/-- swap on a MultiGrid with shared cells: 0 and 1 exchange cells, 2 stays, the arrivals are at the end -/
+example : let g := run (init 3 3 false true 18) [.place 0 (0, 0), .place 2 (0, 0), .place 1 (1, 1), .place 3 (1, 1), .swap 0 1]
+    (g.content (0, 0), g.content (1, 1)) = ([2, 1], [3, 0]) := by decide
+/-- a move onto the own cell of a MultiGrid sends the agent to the end of the list -/
+example : (run (init 2 2 true true 13) [.place 0 (0, 0), .place 1 (0, 0), .move 0 (2, 2)]).content (0, 0) = [1, 0] := by decide
+/-- `remove_agent` of an agent that is not on the grid -/
+example : (step (init 2 2 true true 13) (.remove 0)).2 = .err .type := by decide
+example : (step (init 2 2 true false 13) (.remove 0)).2 = .ok := by decide
 
 /-- a NetworkGrid history within the quantifier with three rejected calls (missing node twice, unplaced agent) -/
 def demoNetOps : List NOp := [.place 0 1, .place 1 1, .move 0 7, .place 2 9, .move 0 2, .remove 2, .move 1 1, .remove 0]
